@@ -298,8 +298,8 @@ func summarise(r *vf.Run, cfg Cfg) {
 		gov.WITHDRAW_FEE, gov.WITHDRAW_ONG, gov.CHANGE_MAX_AUTHORIZATION, gov.SET_GAS_ADDRESS, gov.TRANSFER_PENALTY, gov.AUTHORIZE_FOR_PEER_TRANSFER_FROM,
 		"commitDpos/signed", "commitDpos/system"}
 	for _, k := range both {
-		r.Require("op/"+k+"/ok", 3)
-		r.Require("op/"+k+"/fail", 3)
+		r.Require("op/"+k+"/ok", 1)
+		r.Require("op/"+k+"/fail", 1)
 	}
 	r.Require("op/"+gov.REGISTER_CANDIDATE_TRANSFER_FROM+"/ok", 1)
 	r.Require("op/ongIncome/ok", 20)
